@@ -605,6 +605,12 @@ func openers() []caseIn {
 	}
 	ex := func(g int, c ...node) node { return node{K: "exec", G: g, C: c} }
 	wa := func(c ...node) node { return node{K: "wasm", G: 0, C: c} }
+	chain := func(n, g int, inner node) node {
+		for i := 0; i < n; i++ {
+			inner = ex(g, inner)
+		}
+		return inner
+	}
 	r90, r25, r25p := "900000000000000000", "250000000000000000", "250000000000000001"
 	return []caseIn{
 		// the historic authz bypass and deeper nestings of it
@@ -631,6 +637,11 @@ func openers() []caseIn {
 			{Dt: 5, Signer: 1, Msgs: []node{cv(1, "100000000000000000"), ex(1, node{K: "send", From: 1})}},
 			{Dt: 86400, Signer: 1, Msgs: []node{ex(1, node{K: "send", From: 1}), node{K: "edit", Op: 1, Rate: sp(r90)}}},
 			{Dt: 5, Signer: 2, Msgs: []node{cv(2, r25), cv(3, r90)}}}},
+		// deep chains: exec^8 and exec^12 around an over-cap create (rejected), exec^8 around a create at the cap
+		// (accepted), wasm∘exec^6 around an over-cap create
+		{Txs: []txIn{{Dt: 5, Signer: 1, Msgs: []node{chain(8, 1, cv(1, r25p))}}, {Dt: 5, Signer: 1, Msgs: []node{chain(12, 1, cv(1, r90))}},
+			{Dt: 5, Signer: 1, Msgs: []node{chain(8, 1, cv(1, r25))}}, {Dt: 5, Signer: 0, Msgs: []node{wa(chain(6, idContract, cv(idContract, r25p)))}},
+			{Dt: 86400, Signer: 1, Msgs: []node{chain(10, 1, node{K: "edit", Op: 1, Rate: sp(r25p)})}}}},
 		// extension options: the EVM chain admits MsgEthereumTx only, unknown options are rejected
 		{Txs: []txIn{{Dt: 5, Ext: "evm", Signer: 1, Msgs: []node{cv(1, r90)}}, {Dt: 5, Ext: "evm", Signer: 1, Msgs: []node{ex(1, cv(1, r25))}},
 			{Dt: 5, Ext: "other", Signer: 1, Msgs: []node{cv(1, r25)}}, {Dt: 5, Signer: 1, Msgs: []node{cv(1, r25)}}}},
